@@ -54,3 +54,25 @@ func (v *VerifInformer) VerifChecksum(obj *unstructured.Unstructured) string {
 	}
 	return res.Metadata.Checksum
 }
+
+// VerifMonitorState reads the unlock state of a monitor without taking locks (every goroutine of
+// the case is parked or finished when the harness calls it).
+func VerifMonitorState(mon Monitor) (flag bool, statics []bool, varying map[string][]bool, buffered map[string]int) {
+	m := mon.(*monitor)
+	flag = VerifEventsEnabled(m)
+	varying = map[string][]bool{}
+	buffered = map[string]int{}
+	for _, ri := range m.ResourceInformers {
+		statics = append(statics, ri.eventCbEnabled)
+		buffered[ri.Namespace] += len(ri.eventBuf)
+	}
+	m.VaryingInformers.Range(func(ns string, ris []*resourceInformer) bool {
+		varying[ns] = []bool{}
+		for _, ri := range ris {
+			varying[ns] = append(varying[ns], ri.eventCbEnabled)
+			buffered[ns] += len(ri.eventBuf)
+		}
+		return true
+	})
+	return flag, statics, varying, buffered
+}
